@@ -149,29 +149,74 @@ func buildCatalogueEntries() []catEntry {
 	return out
 }
 
-func buildCatalogue() string {
-	entries := buildCatalogueEntries()
-	var b strings.Builder
-	b.WriteString("-- GENERATED by harness/cmd/extract (run-time dump of every built-in test). Do not edit.\nnamespace Zog.Gen\n\n")
-	b.WriteString("structure CatEntry where\n  builder : String\n  /-- the builder produced exactly one issue when forced to fail -/\n  ok : Bool\n  dtype : List Char\n  code : List Char\n  paramKeys : List (List Char)\n\n")
-	b.WriteString("def catalogue : List CatEntry := [\n")
+// buildUserEntries: a USER-defined test (TestFunc with its own issue code) failing once on every schema type,
+// and z.CustomFunc schemas (failing test, type mismatch). No language table can know these codes: the
+// message must come from the type's fallback template.
+func buildUserEntries() []catEntry {
+	var out []catEntry
+	first := func(name string, l z.ZogIssueList, m z.ZogIssueMap) {
+		if m != nil {
+			l = m["$first"]
+		}
+		if len(l) != 1 {
+			out = append(out, catEntry{builder: name + fmt.Sprintf("!unexpected-%d-issues", len(l))})
+			return
+		}
+		out = append(out, entryFrom(name, l[0]))
+	}
+	never := func(any, z.Ctx) bool { return false }
+	code := z.IssueCode("user_defined_code")
+	var s string
+	var n int
+	var f float64
+	var b bool
+	var tm time.Time
+	var xs []int
+	type S struct{ A int }
+	var st S
+	first("String.TestFunc", z.String().TestFunc(never, code).Parse("x", &s), nil)
+	first("Int.TestFunc", z.Int().TestFunc(never, code).Parse(1, &n), nil)
+	first("Float64.TestFunc", z.Float64().TestFunc(never, code).Parse(1.5, &f), nil)
+	first("Bool.TestFunc", z.Bool().TestFunc(never, code).Parse(true, &b), nil)
+	first("Time.TestFunc", z.Time().TestFunc(never, code).Parse(time.Unix(1000, 0), &tm), nil)
+	first("Slice.TestFunc", nil, z.Slice(z.Int()).TestFunc(never, code).Parse([]any{1}, &xs))
+	first("Struct.TestFunc", nil, z.Struct(z.Schema{"a": z.Int()}).TestFunc(never, code).Parse(map[string]any{"a": 1}, &st))
+	cf := z.CustomFunc(func(p *int, ctx z.Ctx) bool { return false }, code)
+	first("Custom.Test", cf.Parse(1, &n), nil)
+	first("Custom.Coerce", cf.Parse("zz", &n), nil)
+	first("Custom.InStruct", nil, z.Struct(z.Schema{"a": cf}).Parse(map[string]any{"a": 1}, &st))
+	return out
+}
+
+func writeEntries(b *strings.Builder, name string, entries []catEntry) {
+	fmt.Fprintf(b, "def %s : List CatEntry := [\n", name)
 	for i, e := range entries {
 		ks := make([]string, len(e.keys))
 		for j, k := range e.keys {
 			ks[j] = leanChars(k)
 		}
-		fmt.Fprintf(&b, "  -- %s: dtype=%q code=%q params=%v\n", e.builder, e.dtype, e.code, e.keys)
+		fmt.Fprintf(b, "  -- %s: dtype=%q code=%q params=%v\n", e.builder, e.dtype, e.code, e.keys)
 		okS := "true"
 		if strings.Contains(e.builder, "!") {
 			okS = "false"
 		}
-		fmt.Fprintf(&b, "  { builder := %q, ok := %s, dtype := %s, code := %s, paramKeys := [%s] }", e.builder, okS, leanChars(e.dtype), leanChars(e.code), strings.Join(ks, ", "))
+		fmt.Fprintf(b, "  { builder := %q, ok := %s, dtype := %s, code := %s, paramKeys := [%s] }", e.builder, okS, leanChars(e.dtype), leanChars(e.code), strings.Join(ks, ", "))
 		if i < len(entries)-1 {
 			b.WriteString(",")
 		}
 		b.WriteString("\n")
 	}
 	b.WriteString("]\n\n")
+}
+
+func buildCatalogue() string {
+	entries := buildCatalogueEntries()
+	var b strings.Builder
+	b.WriteString("-- GENERATED by harness/cmd/extract (run-time dump of every built-in test). Do not edit.\nnamespace Zog.Gen\n\n")
+	b.WriteString("structure CatEntry where\n  builder : String\n  /-- the builder produced exactly one issue when forced to fail -/\n  ok : Bool\n  dtype : List Char\n  code : List Char\n  paramKeys : List (List Char)\n\n")
+	writeEntries(&b, "catalogue", entries)
+	b.WriteString("/-- user-defined tests (own issue code) on every schema type, and z.CustomFunc schemas -/\n")
+	writeEntries(&b, "userCatalogue", buildUserEntries())
 	// (plain code, negated code) of every negatable string test
 	byName := map[string]string{}
 	for _, e := range entries {
